@@ -81,6 +81,23 @@ def run(ctx):
             if dense:
                 ok = float(r.t) == qv and np.allclose(r.y, o.sol(qv), rtol=0, atol=0)
                 ctx.oracle("dense-lookup", bool(ok), inp, what="lookup at a time with dense output does not return the dense solution")
+                # ... and the dense solution there is the piece of the step that contains the query (the end step for a query past
+                # an end of the run), found here independently of the library's interval search
+                if cont != "against-span":
+                    d_ = 1.0 if t[-1] >= t[0] else -1.0
+                    ks = [k for k in range(n - 1) if (qv - t[k]) * d_ >= 0 and (t[k + 1] - qv) * d_ >= 0]
+                    if not ks:
+                        ks = [0] if (qv - t[0]) * d_ < 0 else [n - 2]
+                    knots = [float(x) for x in o.sol.t_eval]
+                    cands = []
+                    for k in ks:
+                        j = [i for i, kn in enumerate(knots) if kn == float(t[k + 1])]
+                        if len(j) == 1:
+                            cands.append(np.asarray(o.sol.y_interpolants[j[0]](qv)))
+                    if cands:
+                        okp = any(np.array_equal(np.asarray(r.y), c) for c in cands)
+                        ctx.oracle("dense-lookup-answered-by-the-containing-step", bool(okp), dict(inp, steps=ks, got=np.asarray(r.y).tolist(), expected=cands[0].tolist()),
+                                   what="a[%r]: the value is not the one of the piece of step %s (got %s, that piece gives %s)" % (qv, ks, np.asarray(r.y).tolist(), cands[0].tolist()))
             else:
                 d = np.abs(t - qv)
                 best = float(np.min(d))
